@@ -1,7 +1,9 @@
 SPECIFICATION MCSpec
 CONSTANTS
   NC = 3
+  NF = 1
   WinC = 2
+  StrictForward = TRUE
   StopAtGenesis = FALSE
   MaxFaults = 1
 INVARIANTS SavedAreTrueAncestorsContiguous CompleteWhenDone
